@@ -1,6 +1,7 @@
 package main
 
 import (
+	"go/constant"
 	"fmt"
 	"go/types"
 	"sort"
@@ -130,6 +131,32 @@ func (qc *quoteCheck) write(in ssa.Instruction, scr ssa.Value, set ivset, depth 
 	case strings.HasSuffix(name, "strings.Builder).WriteString") || strings.HasSuffix(name, "bytes.Buffer).WriteString"):
 		s, isConst := constString(cm.Args[len(cm.Args)-1])
 		if !isConst {
+			// the escape of the scanned byte looked up in a read-only table: each entry must be the byte's own escape
+			if tab, idx, isOK, field := tableLookup(p, cm.Args[len(cm.Args)-1]); tab != nil && !isOK && field == "" && sameScrutinee(stripChange(idx), scr) {
+				okAll := true
+				for _, iv := range set {
+					for x := iv[0]; x <= iv[1]; x++ {
+						found := false
+						for _, e := range tab.entries {
+							if k, ok := constant.Int64Val(e.key); ok && k == x {
+								es, isS := constString(e.val)
+								if want, isEsc := escapeDecodes[es]; isS && isEsc && want == x {
+									found = true
+								}
+							}
+						}
+						if !found {
+							okAll = false
+						}
+					}
+				}
+				if okAll {
+					qc.nOK++
+				} else {
+					fail("escape table "+tab.g.Name()+" written for bytes "+set.String(), "an entry of the table is not the escape the lexer decodes back to its key, or a byte reaches the write that the table does not hold")
+				}
+				return true
+			}
 			r.Undecided(in.Pos(), p.FuncName(fn), "write of a computed string", "the quoting function writes a string that is not a constant escape for byte values "+set.String()+": whether the lexer maps it back to the scanned byte is not decided")
 			return true
 		}
